@@ -11,7 +11,7 @@ ID = "C03"
 LEVEL = "model_checking"
 ENGINE = "E1 bounded-exhaustive generation-tree explorer"
 RULE = (
-    "all 4^5-1 lane/length patterns (lane in {inactive,0,3,5}) + open x flag lines carrying a length x contexts "
+    "all 4^5-1 lane/length patterns (lane in {inactive,0,3,5}) + open x flag lines carrying a length (written after, before and between the lane lines) x contexts "
     "(alone / after / before / between short notes) x tempo maps changing before, inside, at and after the sustain x "
     "resolutions; distinct = distinct chart text; non-trivial = at least two active lanes or a non-zero length"
 )
@@ -50,6 +50,7 @@ CONTEXTS = (
     ("before", [], ["12 = N 1 1"], ("none", "tap")),
     ("between", ["2 = N 0 0"], ["12 = N 1 1"], ("none", "tap", "forced", "both")),
 )
+ORDERS = ("lanes-flags", "flags-lanes", "flags-inside")
 MAPS = (
     ("const", []),
     ("at+1", ["11 = B 60000"]),
@@ -111,22 +112,36 @@ def run_shard(shard, ctx):
         sus, longest = expected_note(pat)
         for cname, before, after, fsets in CONTEXTS:
             for fs in fsets:
-                body = before + pat_lines(pat) + ["10 = N %d %d" % f for f in FLAGSETS[fs]] + after
-                text = mk(res=res, sync=sync, tracks={"ExpertSingle": body})
-                exp_notes = []
-                if before:
-                    exp_notes.append([2, 0, 0, 2, 0, True])
-                exp_notes.append([10, sus, longest, 10 + longest, 0, True])
-                if after:
-                    exp_notes.append([12, 1, 1, 13, 0, True])
-                expected = [exp_notes, 0]
-                got = e1.run_probe(probe, text)
-                nontriv = pat[0] != "open" and (sum(x is not None for x in pat) >= 2) or longest > 0
-                ctx.case(text, nontrivial=bool(nontriv), sample=lambda: dict(body=body, sync=sync, expected=expected))
-                ctx.evaluations += 6 * len(exp_notes) + 1
-                ctx.hist["sustain_" + ("tuple" if isinstance(sus, list) else "uniform")] += 1
-                if got != expected:
-                    e1.report(ctx, "sustain", text, PROBE_SRC, [expected], got, "sustain / end tick / end time / last-note-end differ (map %s, context %s, flags %s): body=%r" % (mname, cname, fs, body))
+                lanes_, flags_ = pat_lines(pat), ["10 = N %d %d" % f for f in FLAGSETS[fs]]
+                for order in ORDERS:
+                    if order != "lanes-flags" and (not flags_ or pat[0] == "open" or (order == "flags-inside" and len(lanes_) < 2)):
+                        continue  # a flag before an open-note line is outside the domain (DESIGN.md 3.1)
+                    if order == "lanes-flags":
+                        group = lanes_ + flags_
+                    elif order == "flags-lanes":
+                        group = flags_ + lanes_
+                    else:  # flags after the first lane line
+                        group = lanes_[:1] + flags_ + lanes_[1:]
+                    _one(ctx, res, sync, mname, cname, fs, order, before, group, after, pat, sus, longest)
+
+
+def _one(ctx, res, sync, mname, cname, fs, order, before, group, after, pat, sus, longest):
+    body = before + group + after
+    text = mk(res=res, sync=sync, tracks={"ExpertSingle": body})
+    exp_notes = []
+    if before:
+        exp_notes.append([2, 0, 0, 2, 0, True])
+    exp_notes.append([10, sus, longest, 10 + longest, 0, True])
+    if after:
+        exp_notes.append([12, 1, 1, 13, 0, True])
+    expected = [exp_notes, 0]
+    got = e1.run_probe(probe, text)
+    nontriv = pat[0] != "open" and (sum(x is not None for x in pat) >= 2) or longest > 0
+    ctx.case(text, nontrivial=bool(nontriv), sample=lambda: dict(body=body, sync=sync, expected=expected))
+    ctx.evaluations += 6 * len(exp_notes) + 1
+    ctx.hist["sustain_" + ("tuple" if isinstance(sus, list) else "uniform")] += 1
+    if got != expected:
+        e1.report(ctx, "sustain", text, PROBE_SRC, [expected], got, "sustain / end tick / end time / last-note-end differ (map %s, context %s, flags %s, line order %s): body=%r" % (mname, cname, fs, order, body))
 
 
 def replay(case):
